@@ -770,6 +770,7 @@ func (p *ConstDefs) NextAt(at ValueAt, fn F, iotav int, pos token.Pos, names ...
 			typ = ret[i].Type
 		}
 		if name != "_" {
+			pkg.useName(name)
 			if old := p.scope.Insert(types.NewConst(pos, pkg.Types, name, typ, ret[i].CVal)); old != nil {
 				oldpos := cb.fset.Position(old.Pos())
 				cb.panicCodeErrorf(
